@@ -81,6 +81,8 @@ func main() {
 		cmdManifest()
 	case "analyse-variant":
 		os.Exit(cmdAnalyseVariant(os.Args[2:]))
+	case "effects":
+		os.Exit(cmdEffects(os.Args[2:]))
 	default:
 		usage()
 	}
